@@ -519,52 +519,12 @@ func (d *Datastore) runDeviationUpdate(ctx context.Context, dm map[string]sdcpb.
 
 	configPaths := map[string]struct{}{}
 
-	// go through config and calculate deviations
-	for upd := range d.cacheClient.ReadCh(ctx, d.Name(), &cache.Opts{Store: cachepb.Store_CONFIG}, [][]string{nil}, 0) {
-		// save the updates path as an already checked path
-		configPaths[strings.Join(upd.GetPath(), sep)] = struct{}{}
-
-		v, err := upd.Value()
-		if err != nil {
-			log.Errorf("%s: failed to convert value: %v", d.Name(), err)
-			continue
-		}
-
-		// read the entries of all the intents for the path (all priorities),
-		// the read is a prefix read, so sort out the entries of paths further down
-		intentsUpdates := slices.DeleteFunc(d.cacheClient.Read(ctx, d.Name(), &cache.Opts{
-			Store:    cachepb.Store_INTENDED,
-			Owner:    "",
-			Priority: -1,
-		}, [][]string{upd.GetPath()}, 0), func(u *cache.Update) bool {
-			return !slices.Equal(u.GetPath(), upd.GetPath())
-		})
+	// reportIntents sends the NOT_APPLIED / OVERRULED deviations of one path, given the entries of
+	// all the intents that define it. v is the running value of the path, nil if running lacks it.
+	reportIntents := func(intentsUpdates []*cache.Update, v *sdcpb.TypedValue) {
 		if len(intentsUpdates) == 0 {
-			log.Debugf("%s: has unhandled config %v: %v", d.Name(), upd.GetPath(), v)
-			// TODO: generate an unhandled config deviation
-			sp, err := d.schemaClient.ToPath(ctx, upd.GetPath())
-			if err != nil {
-				log.Errorf("%s: failed to convert cached path to xpath: %v", d.Name(), err)
-			}
-
-			rsp := &sdcpb.WatchDeviationResponse{
-				Name:         d.Name(),
-				Intent:       upd.Owner(),
-				Event:        sdcpb.DeviationEvent_UPDATE,
-				Reason:       sdcpb.DeviationReason_UNHANDLED,
-				Path:         sp,
-				CurrentValue: v,
-			}
-			for _, dc := range dm {
-				err = dc.Send(rsp)
-				if err != nil {
-					log.Errorf("%s: failed to send deviation: %v", d.Name(), err)
-					continue
-				}
-			}
-			continue
+			return
 		}
-		// NOT_APPLIED or OVERRULED deviation
 		// sort intent updates by priority/TS
 		sort.Slice(intentsUpdates, func(i, j int) bool {
 			if intentsUpdates[i].Priority() == intentsUpdates[j].Priority() {
@@ -577,31 +537,34 @@ func (d *Datastore) runDeviationUpdate(ctx context.Context, dm map[string]sdcpb.
 		fiv, err := intentsUpdates[0].Value()
 		if err != nil {
 			log.Errorf("%s: failed to convert intent value: %v", d.Name(), err)
-			continue
+			return
 		}
 		sp, err := d.schemaClient.ToPath(ctx, intentsUpdates[0].GetPath())
 		if err != nil {
 			log.Errorf("%s: failed to convert path %v: %v", d.Name(), intentsUpdates[0].GetPath(), err)
-			continue
+			return
 		}
 		scRsp, err := d.schemaClient.GetSchemaSdcpbPath(ctx, sp)
 		if err != nil {
 			log.Errorf("%s: failed to get path schema: %v ", d.Name(), err)
-			continue
+			return
 		}
 		nfiv, err := utils.TypedValueToYANGType(fiv, scRsp.GetSchema())
 		if err != nil {
 			log.Errorf("%s: failed to convert value to its YANG type: %v ", d.Name(), err)
-			continue
+			return
 		}
 		// the running value needs the same normalization, otherwise equal values
 		// in different representations are reported as deviation
-		nv, err := utils.TypedValueToYANGType(v, scRsp.GetSchema())
-		if err != nil {
-			log.Errorf("%s: failed to convert value to its YANG type: %v ", d.Name(), err)
-			continue
+		var nv *sdcpb.TypedValue
+		if v != nil {
+			nv, err = utils.TypedValueToYANGType(v, scRsp.GetSchema())
+			if err != nil {
+				log.Errorf("%s: failed to convert value to its YANG type: %v ", d.Name(), err)
+				return
+			}
 		}
-		if !utils.EqualTypedValues(nfiv, nv) {
+		if v == nil || !utils.EqualTypedValues(nfiv, nv) {
 			log.Debugf("%s: intent %s has a NOT_APPLIED deviation: configured: %v -> expected %v",
 				d.Name(), intentsUpdates[0].Owner(), v, nfiv)
 			rsp := &sdcpb.WatchDeviationResponse{
@@ -678,6 +641,55 @@ func (d *Datastore) runDeviationUpdate(ctx context.Context, dm map[string]sdcpb.
 		}
 	}
 
+	// go through config and calculate deviations
+	for upd := range d.cacheClient.ReadCh(ctx, d.Name(), &cache.Opts{Store: cachepb.Store_CONFIG}, [][]string{nil}, 0) {
+		// save the updates path as an already checked path
+		configPaths[strings.Join(upd.GetPath(), sep)] = struct{}{}
+
+		v, err := upd.Value()
+		if err != nil {
+			log.Errorf("%s: failed to convert value: %v", d.Name(), err)
+			continue
+		}
+
+		// read the entries of all the intents for the path (all priorities),
+		// the read is a prefix read, so sort out the entries of paths further down
+		intentsUpdates := slices.DeleteFunc(d.cacheClient.Read(ctx, d.Name(), &cache.Opts{
+			Store:    cachepb.Store_INTENDED,
+			Owner:    "",
+			Priority: -1,
+		}, [][]string{upd.GetPath()}, 0), func(u *cache.Update) bool {
+			return !slices.Equal(u.GetPath(), upd.GetPath())
+		})
+		if len(intentsUpdates) == 0 {
+			log.Debugf("%s: has unhandled config %v: %v", d.Name(), upd.GetPath(), v)
+			// TODO: generate an unhandled config deviation
+			sp, err := d.schemaClient.ToPath(ctx, upd.GetPath())
+			if err != nil {
+				log.Errorf("%s: failed to convert cached path to xpath: %v", d.Name(), err)
+			}
+
+			rsp := &sdcpb.WatchDeviationResponse{
+				Name:         d.Name(),
+				Intent:       upd.Owner(),
+				Event:        sdcpb.DeviationEvent_UPDATE,
+				Reason:       sdcpb.DeviationReason_UNHANDLED,
+				Path:         sp,
+				CurrentValue: v,
+			}
+			for _, dc := range dm {
+				err = dc.Send(rsp)
+				if err != nil {
+					log.Errorf("%s: failed to send deviation: %v", d.Name(), err)
+					continue
+				}
+			}
+			continue
+		}
+		// NOT_APPLIED or OVERRULED deviation
+		reportIntents(intentsUpdates, v)
+	}
+
 	intendedUpdates, err := d.readStoreKeysMeta(ctx, cachepb.Store_INTENDED)
 	if err != nil {
 		log.Error(err)
@@ -685,50 +697,22 @@ func (d *Datastore) runDeviationUpdate(ctx context.Context, dm map[string]sdcpb.
 	}
 
 	for _, upds := range intendedUpdates {
-		for _, upd := range upds {
-			path := strings.Join(upd.GetPath(), sep)
-			if _, exists := configPaths[path]; !exists {
-
-				// iv, err := upd.Value()
-				// if err != nil {
-				// 	log.Errorf("%s: failed to convert intent value: %v", d.Name(), err)
-				// 	continue
-				// }
-
-				path, err := d.schemaClient.ToPath(ctx, upd.GetPath())
-				if err != nil {
-					log.Error(err)
-					continue
-				}
-				// scRsp, err := d.getSchema(ctx, path)
-				// if err != nil {
-				// 	log.Errorf("%s: failed to get path schema: %v ", d.Name(), err)
-				// 	continue
-				// }
-				// niv, err := d.typedValueToYANGType(iv, scRsp.GetSchema())
-				// if err != nil {
-				// 	log.Errorf("%s: failed to convert value to its YANG type: %v ", d.Name(), err)
-				// 	continue
-				// }
-
-				rsp := &sdcpb.WatchDeviationResponse{
-					Name:          d.Name(),
-					Intent:        upd.Owner(),
-					Event:         sdcpb.DeviationEvent_UPDATE,
-					Reason:        sdcpb.DeviationReason_NOT_APPLIED,
-					Path:          path,
-					ExpectedValue: nil, // TODO this need to be fixed
-					CurrentValue:  nil,
-				}
-				for _, dc := range dm {
-					err = dc.Send(rsp)
-					if err != nil {
-						log.Errorf("%s: failed to send deviation: %v", d.Name(), err)
-						continue
-					}
-				}
-			}
+		if len(upds) == 0 {
+			continue
 		}
+		path := upds[0].GetPath()
+		if _, exists := configPaths[strings.Join(path, sep)]; exists {
+			continue
+		}
+		// the path is missing in running: NOT_APPLIED for the ruling intent,
+		// OVERRULED for the intents that want another value than the ruling one
+		reportIntents(slices.DeleteFunc(d.cacheClient.Read(ctx, d.Name(), &cache.Opts{
+			Store:    cachepb.Store_INTENDED,
+			Owner:    "",
+			Priority: -1,
+		}, [][]string{path}, 0), func(u *cache.Update) bool {
+			return !slices.Equal(u.GetPath(), path)
+		}), nil)
 	}
 
 	// send deviation event END
